@@ -1,5 +1,34 @@
 import Proofs.C19
+import Proofs.C07Draw
+import Proofs.TieBasis
+import Proofs.DeclBasis
 #print axioms PV.Proofs.C19.sample_bound
 #print axioms PV.Proofs.C19.clamp_contracts
 #print axioms PV.Proofs.C19.step_ratio_le_one
 #print axioms PV.Proofs.C19.C19_bound
+#print axioms PV.Proofs.C07Draw.unitQ_eq
+#print axioms PV.Proofs.C07Draw.halfQ_eq
+#print axioms PV.Proofs.C07Draw.unitQ_cast
+#print axioms PV.Proofs.C07Draw.halfQ_cast
+#print axioms PV.Proofs.C07Draw.card_filter_lt
+#print axioms PV.Proofs.C07Draw.unitQ_range
+#print axioms PV.Proofs.C07Draw.halfQ_range
+#print axioms PV.Proofs.C07Draw.unit_lt_iff
+#print axioms PV.Proofs.C07Draw.ceil_le_of_le_one
+#print axioms PV.Proofs.C07Draw.unit_count
+#print axioms PV.Proofs.C07Draw.unit_probability
+#print axioms PV.Proofs.C07Draw.accept_probability
+#print axioms PV.Proofs.C07Draw.zero_never
+#print axioms PV.Proofs.C07Draw.one_always
+#print axioms PV.Proofs.C07Draw.half_lt_iff
+#print axioms PV.Proofs.C07Draw.half_count
+#print axioms PV.Proofs.C07Draw.half_probability
+#print axioms PV.Proofs.C07Draw.half_reflect
+#print axioms PV.Proofs.C07Draw.mul_lt_iff_lt_ceilDiv
+#print axioms PV.Proofs.C07Draw.index_count_gen
+#print axioms PV.Proofs.C07Draw.index_count
+#print axioms PV.Proofs.Tie.declared_translated_basis
+#print axioms PV.Proofs.Tie.value_range_tie
+#print axioms PV.Proofs.Tie.clamped_tie
+#print axioms PV.Proofs.Tie.sample_tie
+#print axioms PV.Proofs.DeclBasis.declared_rot_symmetry
